@@ -279,6 +279,48 @@ static void run_case(vh::Ctx & c, vh::Rng & r, CaseData & cd)
       c.expect_le(o, err, xtol + lin + rnd, cd.theta == 0 ? "translation_not_recovered" : "rotation_not_recovered", params, wit);
     }
   }
+  // ---- history with a RELATED second problem: one estimator solves the problem and then an exact
+  // symmetric image of it (mirror of the last axis, quarter/half turn about z, reversed order) or
+  // the same geometry with new targets; the second answer must solve the second problem
+  {
+    const int mode = (int)r.range(0, 4);
+    auto sym = [&](const VecL & v, bool is_point) {
+        VecL o = v;
+        if (mode == 0) {o(d - 1) = -o(d - 1);} else if (mode == 1) {o(0) = -v(1); o(1) = v(0);} else if (mode == 2) {
+          o(0) = -v(0); o(1) = -v(1);
+        }
+        (void)is_point;
+        return o;
+      };
+    const size_t nn = s_used.size();
+    std::vector<VecL> s2(nn), t2(nn), n2(nn);
+    VecL shift = random_unit(r, d) * (LD)(1e-3 * (double)cd.radius);
+    for (size_t i = 0; i < nn; ++i) {
+      size_t j = mode == 3 ? nn - 1 - i : i;
+      s2[i] = sym(s_used[j], true); n2[i] = sym(n_used[j], false);
+      t2[i] = mode == 4 ? VecL(t_used[j] + shift) : sym(t_used[j], true);
+    }
+    PointSet<PC> a1(nn), b1(nn), a2(nn), b2(nn); NormalSet<PC> c1(nn), c2(nn);
+    for (size_t i = 0; i < nn; ++i) {
+      a1[i] = make_point<PC>(s_used[i]); b1[i] = make_point<PC>(t_used[i]); c1[i] = make_point<PC>(n_used[i]);
+      a2[i] = make_point<PC>(s2[i]); b2[i] = make_point<PC>(t2[i]); c2[i] = make_point<PC>(n2[i]);
+      s2[i] = cart_of(a2[i]); t2[i] = cart_of(b2[i]); n2[i] = cart_of(c2[i]);
+    }
+    FindRigidTransformationByLeastSquares<PC> est;
+    (void)est.find(a1, b1, c1);
+    MatL H2 = to_ld(est.find(a2, b2, c2));
+    Problem p2 = build(s2, t2, n2);
+    static const char * MODES[] = {"mirror_last_axis", "quarter_turn_z", "half_turn_z", "reversed_order", "new_targets_same_geometry"};
+    c.cat(std::string("second_problem_") + MODES[mode]);
+    if (H2.allFinite() && p2.cond < 1e6L && 16 * eps * p2.cond < 1e-2L) {
+      VecL x2 = params_of(H2, d);
+      LD D2 = 0; for (size_t i = 0; i < nn; ++i) {D2 += (t2[i] - s2[i]).squaredNorm();}
+      LD G2 = 16 * eps * (p2.cond * p2.JtY.norm() + sqn * p2.normJ * sqrtl(D2) + p2.JtJ.norm() * x2.norm());
+      c.expect_le("second_related_problem.normal_equations", (p2.JtJ * x2 - p2.JtY).norm(), G2, "depends_on_history", params, [&]() {
+          return vh::J().s("second_problem", MODES[mode]).f("n", (int)nn).raw("H2", vh::jmat(H2)).f("cond", p2.cond).str();
+        });
+    }
+  }
   // ---- variants agree
   for (size_t k = 1; k < vs.size(); ++k) {
     if (xs[0].size() == 0 || xs[k].size() == 0) {continue;}
